@@ -242,6 +242,7 @@ def vcloop(loop_id, iterable):
         k = it.fresh_index(c)
         c.assume(it.in_range(k))
         c.add_index_terms([k, k + 1, k - 1])
+        env.ghost["loop_index"] = (loop_id, k, it)        # for obligations stated at a `break` exit
         _assume_inv(c, spec.invariant(env, k, entry=False))
         env.ghost["loop_exit"] = None
         try:
